@@ -701,7 +701,12 @@ impl<'r> Lowerer<'r> {
             .map(|a| {
                 let ty = self.type_info.type_of(a);
                 let ty = self.type_info.convert(&ty);
-                (self.expr(a), ty)
+                // Evaluate each argument right away. The value returned by
+                // `expr` can be lazy (e.g. a call), which would otherwise
+                // run after the arguments that follow it.
+                let val = self.expr(a);
+                let var = self.assign_to_var(val, ty);
+                (Value::Move(var), ty)
             })
             .collect();
         self.make_enum(ty, variant, &arguments)
